@@ -74,7 +74,7 @@ def run_export(case):
                 wmi=np.asarray(m.wmi, dtype=np.float64).tolist(),
                 templates=np.asarray(m.sparse_templates.data, dtype=np.float64).tolist(),
                 clusters_wfs=np.asarray(m.sparse_clusters.data, dtype=np.float64).tolist(),
-                amplitudes=[float(x) for x in m.amplitudes], has_features=m.sparse_features is not None,
+                amplitudes=[] if m.amplitudes is None else [float(x) for x in m.amplitudes], has_features=m.sparse_features is not None,
                 sample_rate=float(m.sample_rate), n_closest=int(m.n_closest_channels))
             res['src_model']['chans_w'] = chans_w_at_load
             if m.sparse_features is not None:
